@@ -299,7 +299,9 @@ pub struct CommonFields {
 #[derive(Builder, Debug, Clone, Serialize, Deserialize, PartialEq)]
 #[builder(setter(into, strip_option), build_fn(private, name = "fallible_build"))]
 pub struct GenericError {
+    #[builder(default)]
     code: Option<u64>,
+    #[builder(default)]
     message: Option<String>,
 }
 
@@ -307,7 +309,9 @@ pub struct GenericError {
 #[derive(Builder, Debug, Clone, Serialize, Deserialize, PartialEq)]
 #[builder(setter(into, strip_option), build_fn(private, name = "fallible_build"))]
 pub struct GenericWarning {
+    #[builder(default)]
     code: Option<u64>,
+    #[builder(default)]
     message: Option<String>,
 }
 
